@@ -214,6 +214,16 @@ impl Registry {
             r is Err ==> final(s).registered == old(s).registered && final(s).open == old(s).open,
     { unimplemented!() }
 }
+impl Registry {
+    #[verifier::external_body]
+    pub fn deregister(&self, source: &mut SourceFd, Tracked(s): Tracked<&mut S>) -> (r: Result<(), IoError>)
+        requires old(s).registered.dom().contains(Token(*old(source).0 as usize)) && old(s).registered[Token(*old(source).0 as usize)] == *old(source).0, //@@clause:unix.set.deregister/requires.registered
+        ensures
+            r is Ok,
+            final(s).open == old(s).open, final(s).rx == old(s).rx, final(s).drained == old(s).drained, final(s).polled_nonempty == old(s).polled_nonempty,
+            final(s).registered == old(s).registered.remove(Token(*old(source).0 as usize)), final(s).taken == old(s).taken,
+    { unimplemented!() }
+}
 // From<io::Error> for UnixError (the conversion `?` applies to mio's errors)
 impl From<IoError> for UnixError {
     #[verifier::external_body]
